@@ -14,7 +14,7 @@ EXPLANATION = (
     "SDJWTJson's protected/payload/signature are written only by serde's derive and the issuer's assembly. "
     "C06.H2: every string pushed to a selection result must-derives from a keyed lookup in hash_to_disclosure, every append comes from a recursive selection result, and the presentation's disclosure list is hs_disclosures only. "
     "C06.H3 (A6 pruning): assuming the selector of the current member/element is null or false, no push/append on the result is reachable before the next iteration. "
-    "C06.H4 (A6): the key-binding JWT builder is reachable only when nonce, aud and holder_key are all given; with none given Ok is reachable without it; any other combination reaches no Ok. "
+    "C06.H4 (A6): the key-binding JWT builder is reachable only when nonce, aud and holder_key are all given; with none given Ok is reachable without it; any other combination reaches no Ok; and (A8) every holder field the call mutates is wholly re-assigned before its first use in the call, so nothing from an earlier presentation can appear. "
     "C06.H5: the compact form is join([jwt] ++ disclosures ++ [kb], \"~\") in this order. That the *right* disclosures are chosen for an arbitrary tree and selection, and 'each at most once', are not decided."
 )
 ASSUMPTIONS = [
@@ -32,6 +32,7 @@ def run(ctx):
     h2(ctx, fx, H)
     h3(ctx, fx, H)
     h4(ctx, fx, H)
+    h4_fresh(ctx, fx, H)
     h5(ctx, fx, H)
 
 
@@ -259,6 +260,32 @@ def h4(ctx, fx, H):
                 ctx.finding("C06.H4", P, what, "an inconsistent combination of nonce/aud/holder_key %s" % ("builds a key-binding JWT" if kb_reach else "still returns a presentation"))
             else:
                 ctx.ok("C06.H4", P, what, "inconsistent combination: neither the KB builder nor an Ok exit is reachable")
+
+
+def h4_fresh(ctx, fx, H):
+    """nothing but this call's selection and (if requested) this call's KB-JWT can appear: every holder field the call mutates
+    is wholly re-assigned before its first read/borrow in the same call (A8), so no key-binding JWT, disclosure list or JSON envelope
+    content from an earlier call can leak into the presentation"""
+    from fieldflow import FieldFlow
+    ff = FieldFlow(fx, HSTRUCT)
+    s = ff.summ.get(hmodel.PRESENT)
+    if s is None:
+        ctx.missing("C06.H4", hmodel.PRESENT, "no field-flow summary")
+        return
+    P = H.present
+    bad = 0
+    for f in sorted(s.may_mut):
+        sites = s.first_r.get(f, [])
+        if sites:
+            bad += 1
+            (fname, line, kind, desc) = sites[0]
+            sf = fx.fns.get(fname)
+            ctx.finding("C06.H4", P, "stale-state:%s" % f,
+                        "holder field `%s` is mutated by create_presentation but can be read/borrowed before it is re-initialised in the same call (%s in %s): data from an earlier presentation (e.g. its key-binding JWT) can appear in this one"
+                        % (f, desc, fname), line=line, file=sf.file if sf else None)
+        else:
+            ctx.ok("C06.H4", P, "fresh-state:%s" % f, "re-initialised before any use in this call")
+    ctx.floor("C06.H4", "holder fields mutated by create_presentation", len(s.may_mut), 4)
 
 
 def h5(ctx, fx, H):
